@@ -210,16 +210,24 @@ int main(int argc, char **argv) {
 		}
 		for (int k = 0; k < n; k++) pthread_join(th[k], NULL);
 		pthread_barrier_destroy(&bar);
-		// wait until every item ran and every lane is idle: unlocked, not enqueued, empty (plain reads: not recorded)
-		int idle = 0;
-		for (int w = 0; w < 120000 && !idle; w++) {
+		// wait until every item ran and every lane is idle: unlocked, not enqueued, empty (plain reads: not recorded).
+		// The watchdog is progress-based: it gives up only after 20 s in which neither the number of items run nor any
+		// lane's dq_state / tail changed (a loaded machine only slows progress down)
+		int idle = 0; uint64_t last_sig = ~0ull; struct timespec t_last, t_now; clock_gettime(CLOCK_MONOTONIC, &t_last);
+		for (;;) {
+			uint64_t sig = (uint64_t)atomic_load(&ran) * 0x9E3779B97F4A7C15ull + (uint64_t)atomic_load(&nitems_total);
 			idle = atomic_load(&ran) == atomic_load(&nitems_total);
-			for (int l = 0; l < nlanes && idle; l++) {
+			for (int l = 0; l < nlanes; l++) {
 				dispatch_lane_t dl = upcast(lane_q[l])._dl; uint64_t st = *(volatile uint64_t *)&dl->dq_state;
+				sig = (sig ^ st ^ (uint64_t)(uintptr_t)dl->dq_items_tail) * 0xBF58476D1CE4E5B9ull;
 				if ((st & DISPATCH_QUEUE_DRAIN_OWNER_MASK) || (st & DISPATCH_QUEUE_ENQUEUED) || _dq_state_is_in_barrier(st) ||
 						dl->dq_items_tail != NULL) idle = 0;
 			}
-			if (!idle) usleep(50);
+			if (idle) break;
+			clock_gettime(CLOCK_MONOTONIC, &t_now);
+			if (sig != last_sig) { last_sig = sig; t_last = t_now; }
+			else if ((t_now.tv_sec - t_last.tv_sec) + (t_now.tv_nsec - t_last.tv_nsec) / 1e9 > 20.0) break;
+			usleep(50);
 		}
 		usleep(300);   // let the last drainer leave the objects (reference counts, root-queue bookkeeping)
 		unsigned long long seq1 = atomic_load(&dv_seq);
